@@ -2,7 +2,7 @@
 from ..rules import failure, holds, flow, folds
 from .common import declare
 
-RULES = ['NO-SWALLOWING-GATHER', 'ACC-CONTRACT', 'RERAISE', 'STATE-AFTER-CALL', 'STATE-FROM-RESULT', 'NO-REL-ON-FAIL', 'SYNC-TRANSPORT', 'EMIT-CONVERT']
+RULES = ['EMIT-AFTER-REL', 'NO-SWALLOWING-GATHER', 'ACC-CONTRACT', 'RERAISE', 'STATE-AFTER-CALL', 'STATE-FROM-RESULT', 'NO-REL-ON-FAIL', 'SYNC-TRANSPORT', 'EMIT-CONVERT']
 FLOORS = {'RERAISE': 2, 'STATE-AFTER-CALL': 5, 'STATE-FROM-RESULT': 1, 'NO-REL-ON-FAIL': 1, 'SYNC-TRANSPORT': 3, 'EMIT-CONVERT': 3}
 
 META = {
@@ -27,6 +27,10 @@ def run(ctx, R):
     R.run(failure.check_no_swallowing_gather, ctx, R)
     R.run(folds.check_acc_contract, ctx, R)
     R.run(holds.check_emit, ctx, R)
+    # "the failed element's completion callback is never triggered": nothing is released before it is emitted
+    from .common import hold_classes
+    for c in hold_classes(ctx):
+        R.run(holds.check_class, ctx, R, c, rules={'EMIT-AFTER-REL'})
     for k in [k for k in R.obs if k[0] not in RULES]:
         del R.obs[k]
     R.run(flow.check_sync_transport, ctx, R)
